@@ -222,11 +222,84 @@ def extract_relocate(ctx, sliced, fired):
     fired['relocate'] = rw.fired
 
 
+ARC = 'src/tbb/arena.cpp'
+
+
+def extract_delegate(ctx, sliced, fired):
+    """task_arena_impl::execute (inline path and delegation path) and delegated_task::execute/cancel/finalize"""
+    rw = Rewriter('delegate')
+    out = []
+    W = r'class delegated_task : public d1::task \{'
+    s = slice_block(ARC, r'void finalize\(\)', within=W)
+    sliced.append('%s:%d delegated_task::finalize' % (ARC, s.line))
+    t = rw.sub(s.text, r'void finalize\(\)', 'void dt_finalize(struct delegated_task* self)', 1, 1, name='sig')
+    t = rw.sub(t, r'm_wait_ctx\.release\(\);', 'WAIT_CTX_RELEASE(self->m_wait_ctx);', 0, None, name='wait_context::release')
+    t = rw.sub(t, r'(?s)m_monitor\.notify\(\[this\] \(std::uintptr_t ctx\) \{\s*return ctx == std::uintptr_t\(&m_delegate\);\s*\}\);', 'MONITOR_NOTIFY_KEY(self->m_monitor, (uintptr_t)self->m_delegate);', 0, None, name='monitor notify with key predicate')
+    t = rw.sub(t, r'm_completed\.store\(true, std::memory_order_release\);', 'ATOMIC_STORE(self->m_completed, true);', 0, None, name='atomic-store')
+    out.append(t)
+    s = slice_block(ARC, r'd1::task\* execute\(d1::execution_data& ed\) override', within=W)
+    sliced.append('%s:%d delegated_task::execute' % (ARC, s.line))
+    t = rw.sub(s.text, r'd1::task\* execute\(d1::execution_data& ed\) override', 'task* dt_execute(struct delegated_task* self, execution_data_ext* ed)', 1, 1, name='sig')
+    t = rw.sub(t, r'const execution_data_ext& ed_ext = static_cast<const execution_data_ext&>\(ed\);', 'execution_data_ext* ed_ext_ = ed;', 1, 1, name='downcast')
+    t = rw.sub(t, r'\bed_ext\.', 'ed_ext_->', 3, name='ref')
+    t = rw.sub(t, r'execution_data_ext orig_execute_data_ext = ', 'execution_data_ext orig_execute_data_ext = ', 1, 1, name='copy')
+    t = rw.sub(t, r'(?s)__TBB_ASSERT\(&ed_ext_->task_disp->m_execute_data_ext == &ed,.*?\);', 'VERIF_ASSERT(&ed_ext_->task_disp->m_execute_data_ext == ed, "The execute data shall point to the current task dispatcher execute data");', 0, None, name='assert')
+    t = rw.sub(t, r'ed_ext_->task_disp->get_thread_data\(\)\.my_arena->my_default_ctx', 'ed_ext_->task_disp->m_thread_data->my_arena->my_default_ctx', 1, 1, name='accessor')
+    t = rw.sub(t, r'ed_ext_->task_disp->allow_fifo_task\(', 'TD_ALLOW_FIFO(ed_ext_->task_disp, ', 0, None, name='method')
+    t = rw.sub(t, r'(?s)try_call\(\[&\] \{(.*?)\}\)\.on_completion\(\[&\] \{(.*?)\}\);', r'{ \1 } /* on completion (normal path; the exceptional path is C03) */ { \2 }', 1, 1, name='try_call(body).on_completion(fin) -> body; fin (no-exception path)')
+    t = rw.sub(t, r'm_delegate\(\);', 'CALL_DELEGATE(self->m_delegate);', 0, None, name='delegate call')
+    t = rw.sub(t, r'(?<![\w.>])finalize\(\);', 'dt_finalize(self);', 0, None, name='method')
+    t = rw.sub(t, r'd1::task\*', 'task*', 0, None, name='ns-strip')
+    t = rw.asserts(t, 0)
+    t = rw.std(t)
+    out.append(t)
+    s = slice_block(ARC, r'd1::task\* cancel\(d1::execution_data&\) override', within=W)
+    sliced.append('%s:%d delegated_task::cancel' % (ARC, s.line))
+    t = rw.sub(s.text, r'd1::task\* cancel\(d1::execution_data&\) override', 'task* dt_cancel(struct delegated_task* self)', 1, 1, name='sig')
+    t = rw.sub(t, r'(?<![\w.>])finalize\(\);', 'dt_finalize(self);', 0, None, name='method')
+    t = rw.std(t)
+    out.append(t)
+    s = slice_block(ARC, r'void task_arena_impl::execute\(d1::task_arena_base& ta, d1::delegate_base& d\)')
+    sliced.append('%s:%d task_arena_impl::execute' % (ARC, s.line))
+    t = cxx2c.cpp_resolve(s.text, dict(common.TARGET_MACROS, _WIN64=None), 'task_arena_impl::execute')
+    t = rw.sub(t, r'void task_arena_impl::execute\(d1::task_arena_base& ta, d1::delegate_base& d\)', 'void task_arena_execute(struct task_arena_base* ta, struct delegate_base* d)', 1, 1, name='sig')
+    t = rw.sub(t, r'arena\* a = ta\.my_arena\.load\(std::memory_order_relaxed\);', 'struct arena* a = ta->my_arena;', 1, 1, name='ref-param + load')
+    t = rw.sub(t, r'thread_data\* td = governor::get_thread_data\(\);', 'struct thread_data* td = STUB_get_thread_data();', 1, 1, name='callee stub')
+    t = rw.sub(t, r'a->occupy_free_slot<\s*false\s*>\(\*td\)', 'STUB_occupy_free_slot(a, td)', 0, None, name='callee (proved: C16 slots.occupy_free_slot)')
+    t = rw.sub(t, r'arena::out_of_arena', 'out_of_arena', 0, None, name='ns-strip')
+    t = rw.sub(t, r'concurrent_monitor::thread_context waiter\(\(std::uintptr_t\)&d\);', 'struct thread_context waiter; INIT_thread_context(&waiter, (uintptr_t)d);', 0, None, name='ctor -> INIT')
+    t = rw.sub(t, r'd1::wait_context wo\((\w+)\);', r'struct wait_context wo; INIT_wait_context(&wo, \1);', 0, None, name='ctor -> INIT')
+    t = rw.sub(t, r'd1::task_group_context exec_context\(d1::task_group_context::(\w+)\);', r'struct tgc exec_context; INIT_tgc(&exec_context, tgc_\1);', 0, None, name='ctor -> INIT')
+    t = rw.sub(t, r'task_group_context_impl::copy_fp_settings\(exec_context, \*a->my_default_ctx\);', 'STUB_copy_fp_settings(&exec_context, a->my_default_ctx);', 0, None, name='callee stub')
+    t = rw.sub(t, r'delegated_task dt\(d, a->my_exit_monitors, wo\);', 'struct delegated_task dt; INIT_delegated_task(&dt, d, &a->my_exit_monitors, &wo);', 0, None, name='ctor -> INIT')
+    t = rw.sub(t, r'a->enqueue_task\(\s*dt, exec_context, \*td\);', 'STUB_enqueue_task(a, &dt, &exec_context, td);', 0, None, name='callee stub (arena::enqueue_task)')
+    t = rw.sub(t, r'a->my_exit_monitors\.(prepare_wait|cancel_wait|commit_wait)\(waiter\);', r'MONITOR_\1(&a->my_exit_monitors, &waiter);', 0, None, name='monitor')
+    t = rw.sub(t, r'a->my_exit_monitors\.notify_one\(\);', 'MONITOR_notify_one(&a->my_exit_monitors);', 0, None, name='monitor')
+    t = rw.sub(t, r'wo\.continue_execution\(\)', 'WAIT_CTX_CONTINUE(&wo)', 0, None, name='wait_context')
+    t = rw.sub(t, r'nested_arena_context scope\(\*td, \*a, (\w+)\s*\);', r'NESTED_ARENA_ENTER(td, a, \1);', 0, None, name='RAII scope -> ENTER (the matching EXIT is the end of the block: checked by the harness at the delegate call)')
+    t = rw.sub(t, r'r1::wait\(wo, exec_context\);', 'STUB_r1_wait(&wo, &exec_context);', 0, None, name='callee stub')
+    t = rw.sub(t, r'auto exception = exec_context\.my_exception\.load\(std::memory_order_acquire\);', 'void* exception = exec_context.my_exception;', 0, None, name='load')
+    t = rw.sub(t, r'exec_context\.my_exception\.load\(std::memory_order_relaxed\)', 'exec_context.my_exception', 0, None, name='load')
+    t = rw.sub(t, r'exec_context\.is_group_execution_cancelled\(\)', 'exec_context.cancelled', 0, None, name='accessor')
+    t = rw.sub(t, r'exception->throw_self\(\);', 'VERIF_THROW();', 0, None, name='rethrow -> marker')
+    t = rw.sub(t, r'governor::is_thread_data_set\(td\)', 'true', 0, None, name='debug predicate')
+    t = rw.sub(t, r'context_guard_helper<\s*false\s*> context_guard;', 'RG_NOP();', 0, None, name='RAII context guard -> marker below')
+    t = rw.sub(t, r'context_guard\.set_ctx\(a->my_default_ctx\);', 'CONTEXT_GUARD_SET(a->my_default_ctx);', 0, None, name='context guard')
+    t = rw.sub(t, r'(?<![\w.>])d\(\);', 'CALL_DELEGATE(d);', 0, None, name='delegate call')
+    t = rw.asserts(t, 0)
+    t = rw.std(t)
+    t = tag_loops(t, 'exec', rw)
+    out.append(t)
+    common.write(ctx, 'delegate.inc', '\n'.join(out) + '\n')
+    fired['delegate'] = rw.fired
+
+
 def build(ctx):
     sliced, fired = extract(ctx)
     extract_locks(ctx, sliced, fired)
     extract_steal(ctx, sliced, fired)
     extract_relocate(ctx, sliced, fired)
+    extract_delegate(ctx, sliced, fired)
     C = os.path.join(HERE, 'c01.c')
     n = 5 if ctx.tier == 'quick' else 7
     jobs = [
@@ -241,6 +314,8 @@ def build(ctx):
         Job('the.thief', C, 'h_the_thief', route='RG', loops=True, nloops=1, defines=['THE_THIEF'], target='arena_slot::steal_task against the owner and other thieves: arbitration for one arbitrary slot', source=ASC, timeout=900),
         Job('pool.prepare_task_pool', C, 'h_prepare', route='LC', loops=True, nloops=2, defines=['RELOC'], target='arena_slot::prepare_task_pool + allocate_task_pool + commit_relocated_tasks (any pool size and content)', source=ASH, timeout=900),
         Job('pool.spawn', C, 'h_spawn', route='LC', loops=True, nloops=2, defines=['RELOC'], target='arena_slot::spawn + commit_spawned_tasks (+ prepare_task_pool)', source=ASH, timeout=900),
+        Job('delegate.execute', C, 'h_arena_execute', route='LC', loops=True, nloops=1, defines=['DELEG'], target='task_arena_impl::execute (inline path and delegation to a saturated arena)', source=ARC, timeout=600),
+        Job('delegate.task', C, 'h_delegated_task', route='LF', defines=['DELEG'], target='delegated_task::execute / cancel / finalize', source=ARC),
         Job('pool.steal_task', C, 'h_steal', route='LC', loops=True, nloops=1, defines=['STEAL'], target='arena_slot::steal_task (thief side, any pool size)', source=ASC, timeout=600),
         Job('proxy.extract', C, 'h_extract', route='RG', defines=['PROXY'], target='task_proxy::extract_task<pool_bit|mailbox_bit> (two-sided claim)', source=MB),
     ]
@@ -257,6 +332,14 @@ def build(ctx):
 
 
 def replay(ctx, jobname, failure):
+    if jobname.startswith('delegate.'):
+        exe = native.build([os.path.join(HERE, 'c01_replay_delegate.cpp')], os.path.join(ctx.work, 'c01_replay_delegate'), link_tbb=True)
+        rc, out = native.run([exe], timeout=180)
+        rep = {'cmd': exe, 'rc': rc, 'output': out[-1500:], 'reproduced': False, 'detail': 'native scenario (execute into a saturated arena from a cancelled group) ran f exactly once'}
+        m = re.search(r'FAIL: (.*)', out)
+        if rc not in (0, 'timeout') and m:
+            rep.update(reproduced=True, detail='class=delegated-call-skipped ' + m.group(1)[:300], witness_class='delegated-call-skipped')
+        return rep
     exe = native.build([os.path.join(HERE, 'c01_replay.cpp')], os.path.join(ctx.work, 'c01_replay'), link_tbb=True)
     rc, out = native.run([exe, jobname], timeout=120)
     rep = {'cmd': exe + ' ' + jobname, 'rc': rc, 'output': out[-1500:], 'reproduced': False, 'detail': 'native recipes found no failing sequence (note: src/tbb changes need a rebuilt libtbb; this replay links the library from /repo/_build)'}
